@@ -101,6 +101,11 @@ func (p *Path) jsonMethod(t types.Type, name string) *ssa.Function {
 }
 
 func (p *Path) jsonEncode(t types.Type, v Value, depth int) *jnode {
+	return p.jsonEncodeX(t, v, depth, false)
+}
+
+// jsonEncodeX: hexBytes selects the nikkolasg/hexjson variant ([]byte as a hex string instead of base64).
+func (p *Path) jsonEncodeX(t types.Type, v Value, depth int, hexBytes bool) *jnode {
 	if depth > 30 {
 		p.unsupported("json: value too deep")
 	}
@@ -153,30 +158,33 @@ func (p *Path) jsonEncode(t types.Type, v Value, depth int) *jnode {
 		if ptr == nil {
 			return &jnode{kind: 'n'}
 		}
-		return p.jsonEncode(u.Elem(), *ptr, depth+1)
+		return p.jsonEncodeX(u.Elem(), *ptr, depth+1, hexBytes)
 	case *types.Interface:
 		ifc, _ := v.(Iface)
 		if ifc.T == nil {
 			return &jnode{kind: 'n'}
 		}
-		return p.jsonEncode(ifc.T, ifc.V, depth+1)
+		return p.jsonEncodeX(ifc.T, ifc.V, depth+1, hexBytes)
 	case *types.Slice:
 		sl := v.(Slice)
 		if sl.Nil {
 			return &jnode{kind: 'n'}
 		}
 		if b, ok := u.Elem().Underlying().(*types.Basic); ok && b.Kind() == types.Uint8 {
+			if hexBytes {
+				return &jnode{kind: 'h', bs: bytesOf(p, sl)}
+			}
 			return &jnode{kind: 'y', bs: bytesOf(p, sl)}
 		}
 		n := &jnode{kind: 'a'}
 		for _, e := range sl.A {
-			n.elems = append(n.elems, p.jsonEncode(u.Elem(), e, depth+1))
+			n.elems = append(n.elems, p.jsonEncodeX(u.Elem(), e, depth+1, hexBytes))
 		}
 		return n
 	case *types.Array:
 		n := &jnode{kind: 'a'}
 		for _, e := range v.(Array) {
-			n.elems = append(n.elems, p.jsonEncode(u.Elem(), e, depth+1))
+			n.elems = append(n.elems, p.jsonEncodeX(u.Elem(), e, depth+1, hexBytes))
 		}
 		return n
 	case *types.Struct:
@@ -191,7 +199,7 @@ func (p *Path) jsonEncode(t types.Type, v Value, depth int) *jnode {
 				continue
 			}
 			n.keys = append(n.keys, name)
-			n.vals = append(n.vals, p.jsonEncode(u.Field(i).Type(), st[i], depth+1))
+			n.vals = append(n.vals, p.jsonEncodeX(u.Field(i).Type(), st[i], depth+1, hexBytes))
 		}
 		return n
 	}
@@ -204,6 +212,12 @@ func (p *Path) jsonTypeErr(what string, t types.Type) Value {
 
 // jsonDecode fills *ptr (a value of type t) from n; returns a Go error value (Iface{} = nil).
 func (p *Path) jsonDecode(n *jnode, t types.Type, ptr *Value, depth int) Value {
+	if n.kind == 'h' && !p.jsonHexMode {
+		p.unsupported("json: hex-encoded bytes (hexjson) decoded by encoding/json")
+	}
+	if n.kind == 'y' && p.jsonHexMode {
+		p.unsupported("json: base64 bytes (encoding/json) decoded by hexjson")
+	}
 	if depth > 30 {
 		p.unsupported("json: value too deep")
 	}
@@ -283,7 +297,7 @@ func (p *Path) jsonDecode(n *jnode, t types.Type, ptr *Value, depth int) Value {
 			return Iface{}
 		}
 		if b, ok := u.Elem().Underlying().(*types.Basic); ok && b.Kind() == types.Uint8 {
-			if n.kind != 'y' {
+			if n.kind != 'y' && n.kind != 'h' {
 				return p.jsonTypeErr("non-base64 string", t)
 			}
 			*ptr = sliceOfBytes(append([]*Term{}, n.bs...))
@@ -371,4 +385,14 @@ func init() {
 	}
 	reg("encoding/json.Marshal", jsonMarshal)
 	reg("encoding/json.Unmarshal", jsonUnmarshal)
+	reg("github.com/nikkolasg/hexjson.Marshal", func(p *Path, fn *ssa.Function, a []Value) Value {
+		ifc, _ := a[0].(Iface)
+		n := p.jsonEncodeX(ifc.T, ifc.V, 0, true)
+		return Tuple{sliceOfBytes(p.jsonToken(n)), Iface{}}
+	})
+	reg("github.com/nikkolasg/hexjson.Unmarshal", func(p *Path, fn *ssa.Function, a []Value) Value {
+		p.jsonHexMode = true
+		defer func() { p.jsonHexMode = false }()
+		return jsonUnmarshal(p, fn, a)
+	})
 }
